@@ -50,10 +50,17 @@ def judge(rows):
                 impl_for_model = model      # both do not terminate
             else:
                 impl_for_model = impl
-            if srecs[0] != "-":
-                out.append((op, impl, impl_for_model if impl_for_model != impl else model, spec))
-            else:
+            if impl_for_model != impl:
+                # implementation and model both do not terminate on some text of this history: the whole op
+                # was killed, so the implementation's answers for the EARLIER texts are lost and the
+                # reference cannot be compared text by text (false alarm met on a history whose 2nd text
+                # recurses forever: the reference had answered the 1st text)
+                stats["hang_histories_unjudged"] = stats.get("hang_histories_unjudged", 0) + 1
                 out.append((op, impl_for_model, model, "-"))
+            elif srecs[0] != "-":
+                out.append((op, impl, model, spec))
+            else:
+                out.append((op, impl, model, "-"))
             continue
         ok, compared = True, 0
         for k, s in enumerate(srecs):
